@@ -935,3 +935,66 @@ mut("recovery_edit_keeps_old_wal_number", ["C11"], "ORD-16", file="src/db.rs",
             version_change_manifest.wal_file_number = Some(db_fields_guard.curr_wal_file_number);""",
     new="""            version_change_manifest.prev_wal_file_number = None;""")
 mut("edit_wal_number_from_db_field", ["C11", "C02"], "ROLE-4", patch="edit_wal_number_from_db_field.diff")
+
+# ---- KEY-1
+mut("internal_key_sequence_ascending", ["C01", "C03", "C04", "C13"], "KEY-1", file="src/key.rs",
+    old="""        other.sequence_number.cmp(&self.sequence_number)
+    }""",
+    new="""        self.sequence_number.cmp(&other.sequence_number)
+    }""")
+benign("internal_key_cmp_by_match", ["C01", "C13"], "src/key.rs",
+    old="""        if self.user_key.as_slice().ne(other.user_key.as_slice()) {
+            return self.user_key.as_slice().cmp(other.user_key.as_slice());
+        }
+
+        // Check the sequence number if the keys are equal.
+        // This orders the sequence numbers in descending order because we want to bias toward the
+        // most recent operations.
+        other.sequence_number.cmp(&self.sequence_number)""",
+    new="""        match self.user_key.as_slice().cmp(other.user_key.as_slice()) {
+            std::cmp::Ordering::Equal => other.sequence_number.cmp(&self.sequence_number),
+            ordering => ordering,
+        }""")
+benign("internal_key_cmp_by_then_with", ["C01", "C13"], "src/key.rs",
+    old="""        if self.user_key.as_slice().ne(other.user_key.as_slice()) {
+            return self.user_key.as_slice().cmp(other.user_key.as_slice());
+        }
+
+        // Check the sequence number if the keys are equal.
+        // This orders the sequence numbers in descending order because we want to bias toward the
+        // most recent operations.
+        other.sequence_number.cmp(&self.sequence_number)""",
+    new="""        self.user_key
+            .as_slice()
+            .cmp(other.user_key.as_slice())
+            .then_with(|| other.sequence_number.cmp(&self.sequence_number))""")
+
+# ---- ROLE-5
+mut("version_builder_merge_emits_larger_first", ["C10", "C01"], "ROLE-5", file="src/versioning/version_builder.rs",
+    old="""                if FileMetadataBySmallestKey::compare(base_file, added_file) == Ordering::Less {""",
+    new="""                if FileMetadataBySmallestKey::compare(added_file, base_file) == Ordering::Less {""")
+mut("file_order_descending", ["C10", "C01"], "ROLE-5", file="src/versioning/file_metadata.rs",
+    old="""        let order = a_smallest_key.cmp(b_smallest_key);""",
+    new="""        let order = b_smallest_key.cmp(a_smallest_key);""")
+mut("readded_file_stays_deleted", ["C10"], "ROLE-5", file="src/versioning/version_builder.rs",
+    old="""            self.deleted_files[*level].remove(&new_file.file_number());
+""",
+    new="""""")
+mut("deleted_files_kept_in_new_version", ["C10", "C01"], "ROLE-5", file="src/versioning/version_builder.rs",
+    old="""        if self.deleted_files[level].contains(&file.file_number()) {
+            // Don't add the file if it is marked for deletion
+            return;
+        }
+
+        let files""",
+    new="""        let files""")
+benign("version_builder_merge_negated_comparison", ["C10", "C01"], "src/versioning/version_builder.rs",
+    old="""                if FileMetadataBySmallestKey::compare(base_file, added_file) == Ordering::Less {""",
+    new="""                if FileMetadataBySmallestKey::compare(added_file, base_file) != Ordering::Less {""")
+
+mut("new_snapshot_pushed_at_the_oldest_end", ["C03", "C07"], "ORD-7", file="src/snapshots.rs",
+    old="""        Snapshot::new(self.list.push(snapshot))""",
+    new="""        Snapshot::new(self.list.push_front(snapshot))""", note="oldest() then returns the newest snapshot: entries older snapshots need are dropped")
+
+mut("read_sample_level_outside_first_file_guard", ["C10"], "PAIR-12", patch="read_sample_level_outside_first_file_guard.diff",
+    note="the charged file is paired with the level of the last overlapping file: a trivial move then lists it at two levels")
